@@ -41,6 +41,8 @@ type entry struct {
 	badIn     any
 	only      []string // when set: the only ops applicable to this type (sentinels cannot be told apart otherwise)
 	light     bool     // quick tier: wrapper chains only for histories of length <= 1 (string formats: ZodString's engine path, its own Optional/Nilable/Nullish)
+	kind      string   // plain | record | structp: what the type's modifier methods do with its own configuration (frame.go; Model/Modifiers.lean `Kind`)
+	more      []nonNil // further non-nil inputs (frame.go)
 }
 
 var flagOps = []string{"Optional", "Nilable", "Nullish", "NonOptional"}
@@ -221,7 +223,16 @@ func entries() []entry {
 			valid: [4]any{fnDV, fnDF, fnPV, fnPF}, invalid: [4]any{fnDV, fnDF, fnPV, fnPF}, rule: "nilable", okIn: fnIn, badIn: "notafunc",
 			only: append([]string{"Default:v", "DefaultFunc:v", "Prefault:v", "PrefaultFunc:v"}, flagOps...)},
 	)
+	// ---- round 4b: constructor variants with their type-local configuration set (frame.go) ----
+	es = append(es, variantEntries()...)
 	return es
+}
+
+func okBad(ok bool) string {
+	if ok {
+		return "ok"
+	}
+	return "bad"
 }
 
 func fnDV() int { return 1 }
@@ -235,7 +246,7 @@ func fnIn() int { return 5 }
 // Such cases are judged by the specification only. (Discriminated union and lazy had private nil paths that deviated;
 // since a69d756 / bc2d4fc they follow the engine's order and are compared with the engine model like every other type.)
 func ownPath(e *entry, h []string) bool {
-	if e.name == "record" {
+	if kindOf(e) == "record" {
 		for _, op := range h {
 			if op == "Optional" || op == "Nilable" || op == "Nullish" {
 				return true
@@ -790,24 +801,29 @@ func runHistory(o *hx.Out, e *entry, h []string) bool {
 		o.Count("type:" + e.name)
 		o.Count("outcome:" + strings.SplitN(obs, " ", 2)[0])
 	}
-	// non-nil inputs: same verdict and value as the base schema
-	for _, in := range []any{e.okIn, e.badIn} {
-		if in == nil {
-			continue
-		}
+	// non-nil inputs: same verdict and value as the base schema — every non-nil input of the row (okIn, badIn and the
+	// further ones whose verdict depends on the type's own configuration)
+	for _, nn := range nonNilInputs(e) {
+		in := nn.v
 		r1, e1, p1 := parse(s, reflect.ValueOf(in))
 		r2, e2, p2 := parse(base, reflect.ValueOf(in))
-		obs := "same"
+		obs, detail := "same", ""
 		switch {
 		case p1 != "" || p2 != "":
 			obs = "panic " + p1 + p2
+		case (e2 == nil) != nn.ok:
+			obs = fmt.Sprintf("table:base-verdict-not-as-declared ok=%v", e2 == nil)
 		case (e1 == nil) != (e2 == nil):
-			obs = fmt.Sprintf("diff:verdict mod=%v base=%v", e1 == nil, e2 == nil)
+			obs, detail = "diff:verdict", fmt.Sprintf(" mod=%v base=%v", e1 == nil, e2 == nil)
 		case e1 == nil && !same(r1, r2):
-			obs = fmt.Sprintf("diff:value mod=%v base=%v", deref(r1), deref(r2))
+			obs, detail = "diff:value", fmt.Sprintf(" mod=%v base=%v", deref(r1), deref(r2))
 		}
-		o.Emit(fmt.Sprintf("c03 val %s #%s in=%v", strings.Join(h, " "), e.name, in), obs)
+		o.Emit(fmt.Sprintf("c03 val %s %s %s %s %s #%s in=%v%s", kindOf(e), okBad(nn.ok), hx.B01(nn.dep), hx.B01(ownPath(e, h)), strings.Join(h, " "), e.name, in, detail), obs)
 		o.Count("nonnil:" + strings.SplitN(obs, " ", 2)[0])
+		if nn.dep {
+			o.Count("nonnil-config-dependent:" + strings.SplitN(obs, " ", 2)[0])
+		}
 	}
+	runCfg(o, e, h)
 	return true
 }
